@@ -18,6 +18,11 @@ def V(id, prop, spec, fns, label, clause, tier="quick", timeout=300, assumes=(),
                       timeout=timeout, bound=None, assumes=list(assumes), witness_unit=witness_unit, instance=instance))
 
 
+def KW(id, prop, spec, harness, fns, label, clause, tier="quick", timeout=600, assumes=(), min_covers=1, native_template=None):
+    UNITS.append(dict(id=id, prop=prop, engine="KW", spec=spec, harness=harness, fns=list(fns), label=label, clause=clause, tier=tier,
+                      timeout=timeout, bound=None, assumes=list(assumes), min_covers=min_covers, native_template=native_template))
+
+
 def PY(id, prop, func, fns, clause, where="", tier="quick"):
     UNITS.append(dict(id=id, prop=prop, engine="PY", func=func, fns=list(fns), label="crosscheck", clause=clause,
                       tier=tier, bound=None, assumes=[], where=where))
@@ -48,8 +53,11 @@ PROPS["C08"] = dict(
              "equal iff equal); multiplicative inverses exist for every non-zero element (Verus, unbounded Euclid loop)",
              "deferred-reduction accumulator (Fp61, 64 products) and its array form: no u128 overflow, value' = value + a*b or its reduction",
              "generic accumulator (Fp32), replicated-share + - neg scalar-mul act componentwise (Fp32, Fp61)",
-             "Boolean (GF(2)) exhaustively; DZKP constants 1/2, -1/2, -2; moduli of the seven binary fields are the documented irreducible polynomials"],
-    undecided=["binary-field (Gf2..Gf40Bit, BA*) multiplication algorithm (bitvec folds: CBMC does not finish; Verus cannot import bitvec)",
+             "Boolean (GF(2)) exhaustively; DZKP constants 1/2, -1/2, -2; moduli of the seven binary fields are the documented irreducible polynomials",
+             "binary-field multiplication core (portable clmul + reduction loop, woven, integer operands): product fits in BITS bits for all seven fields; identity/commutativity/distributivity "
+             "and existence of inverses for Gf2, Gf3Bit, Gf8Bit, Gf9Bit (all operands); associativity for Gf2/Gf3Bit; commutativity up to 32 bits, distributivity up to 20 bits",
+             "bit arrays: truncate_from little endian with zero padding; Not stays inside BITS bits"],
+    undecided=["binary fields: the bitvec load/store around the multiplication core, the pclmulqdq/aarch64 intrinsic paths, associativity above 3 bits, distributivity above 20 bits, commutativity at 40 bits (SAT does not finish)",
                "Fp25519 / curve points (external curve25519-dalek)", "batch_invert (the 900-pair Fp31 enumeration does not finish in 30 min) and Lagrange tables",
                "serialisation identity of equal values (GenericArray plumbing aborts CBMC)"],
     trusted_base=["primality of 31, 2^32-5, 2^61-1 and irreducibility of the seven GF(2) moduli (cross-checked each run with sympy, not proved)",
@@ -123,6 +131,22 @@ for w_ in ("ba3", "ba20", "ba8"):
       "bitwise complement stays inside BITS bits (padding bits zero), all values", timeout=900)
 K("c08_dzkp_constants", "C08", "dzkp_field", "protocol::context::dzkp_field", ["<Fp61BitPrime as DZKPBaseField>::{INVERSE_OF_TWO,MINUS_ONE_HALF,MINUS_TWO}"], "complete",
   "2*INVERSE_OF_TWO = 1, MINUS_ONE_HALF + INVERSE_OF_TWO = 0, MINUS_TWO + 2 = 0 (mod P), all canonical")
+_GF_ASSUME = ["weave: operands' bitvec load (as_u128) and the result's bitvec store (try_from) are dropped and trusted; only the portable clmul path is woven"]
+_GF = {"gf2": ("Gf2", ["fits_identity", "commut", "distrib", "assoc", "inverse"], []),
+       "gf3bit": ("Gf3Bit", ["fits_identity", "commut", "distrib", "assoc", "inverse"], []),
+       "gf8bit": ("Gf8Bit", ["fits_identity", "commut", "distrib", "inverse"], []),
+       "gf9bit": ("Gf9Bit", ["fits_identity", "commut", "distrib", "inverse"], []),
+       "gf20bit": ("Gf20Bit", ["fits_identity", "commut"], ["distrib"]),
+       "gf32bit": ("Gf32Bit", ["fits_identity"], ["commut"]),
+       "gf40bit": ("Gf40Bit", ["fits_identity"], [])}
+_GF_CLAUSE = {"fits_identity": "reduced product < 2^BITS (try_from cannot fail); 1 is the identity; 0 annihilates", "commut": "x*y = y*x",
+              "distrib": "x*(y+z) = x*y + x*z", "assoc": "(x*y)*z = x*(y*z)", "inverse": "x * x^(2^BITS-2) = 1 for every x != 0 (inverses exist, no zero divisors)"}
+for g_, (T_, q_, t_) in _GF.items():
+    for a_ in q_ + t_:
+        KW("c08_%s_%s" % (g_, a_), "C08", "gf_mul", "gf_%s_%s" % (g_, a_), ["clmul (portable path)", "<%s as Mul>::mul (reduction loop)" % T_],
+           "complete-for-instance", _GF_CLAUSE[a_] + ", all operands", tier=("quick" if a_ in q_ else "thorough"), timeout=900, assumes=_GF_ASSUME,
+           native_template={"file": "gf_axioms.rs", "name": "verif_replay_gf_axioms", "module": "galois_field", "type": T_,
+                            "bits": {"gf2": 1, "gf3bit": 3, "gf8bit": 8, "gf9bit": 9, "gf20bit": 20, "gf32bit": 32, "gf40bit": 40}[g_]})
 PY("c08_math_facts", "C08", "c08_math_facts", ["field_impl! PRIME literals", "galois_field POLYNOMIAL literals"],
    "primality of the three PRIME literals read from the source; irreducibility over GF(2) of the seven POLYNOMIAL literals read from the source",
    where="ipa-core/src/ff/prime_field.rs, ipa-core/src/ff/galois_field.rs")
